@@ -49,6 +49,8 @@ type Runner struct {
 	hist     *History
 	results  []string
 	lastSlash []slashEv
+	qLines    []string // sampled query arguments of the current query step (queries.go)
+	qGroup    []string // observation group `query` of the current query step
 }
 
 var groupsOrder = []string{"bank", "oblig", "bind", "index", "ctx", "queue", "req", "vol", "cb", "slash"}
@@ -142,7 +144,10 @@ func (r *Runner) exec(o *Op) (res string) {
 		r.now = r.now.Add(time.Duration(o.Dt))
 		r.ctx = r.ctx.WithBlockHeader(tmproto.Header{Height: r.height, Time: r.now})
 		return res
-	case "query", "export":
+	case "query":
+		r.runQueries()
+		return "ok"
+	case "export":
 		return "ok"
 	}
 	cctx, write := r.ctx.CacheContext()
@@ -225,12 +230,24 @@ func (r *Runner) observe(step int) {
 			fmt.Fprintf(r.out, "L %s\n", l)
 		}
 	}
+	// group `query`: on query steps only, and on every one of them
+	if r.qGroup != nil {
+		fmt.Fprintf(r.out, "G %d query %d\n", step, len(r.qGroup))
+		for _, l := range r.qGroup {
+			fmt.Fprintf(r.out, "L %s\n", l)
+		}
+		r.qGroup = nil
+	}
 }
 
 // apply executes the op, writes it with its result and observations, and runs the monitors.
 func (r *Runner) apply(o *Op) string {
 	pre := r.mon.before(o)
 	res := r.exec(o)
+	for _, q := range r.qLines {
+		fmt.Fprintf(r.out, "Q %d %s\n", r.step, q)
+	}
+	r.qLines = nil
 	fmt.Fprintf(r.out, "O %d %s\n", r.step, o.line())
 	fmt.Fprintf(r.out, "R %d %s\n", r.step, res)
 	r.observe(r.step)
